@@ -102,7 +102,10 @@ fn main() {
                     ssmall(&mut g, 2, if thorough { 4 } else { 3 }, shard, nshards);
                     ssmall(&mut g, 3, if thorough { 3 } else { 2 }, shard, nshards);
                 }
-                "srand" => srand(&mut g, &mut r, if thorough { 3000 } else { 150 }, if thorough { 120 } else { 30 }),
+                "srand" => {
+                    srand(&mut g, &mut r, if thorough { 3000 } else { 150 }, if thorough { 120 } else { 30 });
+                    swide(&mut g, &mut r, if thorough { 60 } else { 6 });
+                }
                 "tlong" => tlong(&mut g, shard),
                 "tpages" => tpages(&mut g, shard),
                 "tclone" => tclone(&mut g, &mut r, if thorough { 20000 } else { 1200 }),
